@@ -348,7 +348,31 @@ class _W:
                 ht = C(**kw)
                 model = DocModel(self.nf)
         else:
-            ht = C(**kw)
+            # an unbound copy: empty, or built by the alternate constructors from what the file holds now (they load, but do not bind)
+            how = ("empty", "from_string", "from_path")[cfg["seed"] % 3]
+            data = self.fs.get(PATH)
+            ht = None
+            if how != "empty" and data is not None:
+                try:
+                    model.load(data)
+                    want = "ok"
+                except Malformed:
+                    model = DocModel(self.nf)
+                    want = "ValueError"
+                try:
+                    with warnings.catch_warnings():
+                        warnings.simplefilter("ignore")
+                        ht = C.from_string(data, **kw) if how == "from_string" else C.from_path(PATH, **kw)
+                    outcome = "ok"
+                except Exception as e:
+                    outcome = type(e).__name__
+                    ht = None
+                self.ctx.check(outcome == want, "C16", "constructor-outcome", f"{how}({data!r}): got {outcome}, expected {want}", got=outcome, want=want)
+                if ht is not None:
+                    self.ctx.check(ht.path is None, "C16", "constructor-outcome", f"{how}() bound the copy to {ht.path!r}", got="bound", want="unbound")
+            if ht is None:
+                model = DocModel(self.nf)
+                ht = C(**kw)
         return {"ht": ht, "model": model, "bound": bound, "autosave": bound and autosave, "path": PATH if bound else None}
 
     def _make_objects(self):
